@@ -6,7 +6,7 @@
     [needs_escaping_at] (regenerated flag [C13EscapeTables.positional_escaping]; absent in the
     unchanged tree).  [read_word p w] is the reader specification of Quote/Reader.v: the bash
     quoting rules for one word in argument / assignment position. *)
-From BV Require Import Base.Prelude gen.C13EscapeTables Quote.Quote Quote.Reader Quote.Proofs Quote.AnsiC.
+From BV Require Import Base.Prelude gen.C13EscapeTables Quote.Quote Quote.Reader Quote.Proofs Quote.AnsiC Quote.Decl.
 
 Theorem c13_read_single : forall p s, read_word p (single_quote s) = Some s.
 Proof. exact read_single. Qed.
@@ -80,6 +80,21 @@ Theorem c13_decode_ansi_body_refuted :
   exists s, Forall (fun c => c <> 0%N) s /\ decode 3 (ansi_body s) <> DOk (utf8s s).
 Proof. exact decode_ansi_body_refuted. Qed.
 Print Assumptions c13_decode_ansi_body_refuted.
+
+(** declare -p values of arrays ([ShellValue::format], DeclarePrint) read back as compound assignments:
+    indexed arrays for both values of [pos], associative arrays with the position test in place *)
+Theorem c13_decl_indexed : forall pos vs, Forall kv_ok_indexed vs -> read_compound (fmt_indexed pos vs) = Some vs.
+Proof. exact read_indexed. Qed.
+Print Assumptions c13_decl_indexed.
+
+Theorem c13_decl_assoc : forall kvs, Forall kv_ok_assoc kvs -> read_compound (fmt_assoc true kvs) = Some kvs.
+Proof. exact read_assoc. Qed.
+Print Assumptions c13_decl_assoc.
+
+Theorem c13_decl_assoc_refuted :
+  exists kvs, Forall kv_ok_assoc kvs /\ read_compound (fmt_assoc false kvs) <> Some kvs.
+Proof. exact read_assoc_refuted. Qed.
+Print Assumptions c13_decl_assoc_refuted.
 
 Theorem c13_nonvacuous :
   read_word Arg (quote_if_needed true QBackslash [TILDE; 97; 32; 39; 36]%N) = Some [TILDE; 97; 32; 39; 36]%N
